@@ -151,13 +151,13 @@ def mc_trace_actions(res):
     return re.findall(r"^State \d+: <(\w+)", res.out, re.M)
 
 
-def write_mc_cfg(name, steps, damage=2, stamp=4, invariant="NoOtherViolation", np_=2, view=True, script="none"):
+def write_mc_cfg(name, steps, damage=2, stamp=4, invariant="NoOtherViolation", np_=2, view=True, script="none", goal="none"):
     p = os.path.join(vlib.OUT, "md", name + ".cfg")
     os.makedirs(os.path.dirname(p), exist_ok=True)
     with open(p, "w") as f:
         f.write('SPECIFICATION Spec\nCONSTANTS\n  D = {"0", "1"}\n  NP = %d\n  Names = {"A", "B"}\n  MaxSteps = %d\n'
-                '  MaxDamage = %d\n  MaxStamp = %d\n  ScriptId = "%s"\nINVARIANT %s\n%sCHECK_DEADLOCK FALSE\n'
-                % (np_, steps, damage, stamp, script, invariant, "VIEW View\n" if view else ""))
+                '  MaxDamage = %d\n  MaxStamp = %d\n  ScriptId = "%s"\n  GoalId = "%s"\nINVARIANT %s\n%sCHECK_DEADLOCK FALSE\n'
+                % (np_, steps, damage, stamp, script, goal, invariant, "VIEW View\n" if view else ""))
     return p
 
 
